@@ -228,12 +228,22 @@ class Sim(object):
         self.clock = SimClock(cfg['clock0'])
         self.ctimes = {}
         self.programs = copy.deepcopy(cfg['programs'])
+        # plans name world paths with the placeholder root /W (cwd, home,
+        # tmpdir tokens in the command's output): bind it to the real root
+        for prog in self.programs.values():
+            for e in prog['effects']:
+                if 'text' in e:
+                    e['text'] = bind_root(e['text'], W.root)
         self.popen_calls = 0
         self.clock_during = None
         self.same_tick = False
 
     def touch(self, path):
         self.ctimes[os.path.abspath(path)] = self.clock.t
+
+
+def bind_root(text, root):
+    return re.sub(r'/W(?=/|\b)', lambda m: root, text)
 
 
 def make_datetime_shim(sim):
@@ -419,7 +429,7 @@ def execute(plan):
                 p = W.path('cwd', b['path'])
                 os.makedirs(os.path.dirname(p), exist_ok=True)
                 with io.open(p, 'wb') as f:
-                    f.write(b['text'].encode('utf-8'))
+                    f.write(bind_root(b['text'], W.root).encode('utf-8'))
                 sim.ctimes[os.path.abspath(p)] = -float(b.get('age', 0))
             with Patches(gentest, sim, W, ident):
                 ctx.last_gen = None
@@ -908,7 +918,7 @@ def run_peer_change(ctx, op):
             ctx.stats['faults']['peer_file_' + op['how']] += 1
     ctx.nontrivial = True
     ctx.events.append({'i': op['i'], 'op': 'peer_change', 'kind': k,
-                       'what': ch.get('what')})
+                       'what': ctx.W.scrub(ch.get('what'))})
 
 
 def covered(refs, path):
